@@ -15,7 +15,8 @@ const EOW: u64 = 9002;
 fn symtab(alpha: &str) -> Vec<&'static str> {
     match alpha {
         // multi-byte letters and grapheme clusters (use with graphemes = true)
-        "cluster" => vec!["ä", "e\u{0301}", "🇩🇪", "字", "q", "r", "ß", "o\u{0308}", "😀", "w"],
+        // (the last symbol is one cluster of 261 bytes: a length that does not fit into a byte)
+        "cluster" => vec!["ä", "e\u{0301}", "🇩🇪", "字", "q", "r", "ß", "o\u{0308}", "😀", giant_cluster()],
         // pure ASCII with CR LF as one character (use with graphemes = true): byte-wise fast paths
         "crlf" => vec!["a", "\r\n", "c", "b", "x", "y", "z", "u", "v", "w"],
         _ => vec!["a", "b", "c", "d", "x", "y", "z", "u", "v", "w"],
